@@ -8,6 +8,9 @@ import CookModel.Lemmas.ClosingStream
 import CookModel.Lemmas.FitChoice
 import CookModel.Num.ScaleM
 import CookModel.Lemmas.StdMetaLists
+import CookModel.Lemmas.ScaleOffset
+import CookModel.Lemmas.BuilderBridge
+import CookModel.Lemmas.FitIdem
 /-
   C08  Scaling multiplies exactly the scalable amounts and nothing else.
 
@@ -584,5 +587,220 @@ example : SM.valueAsServings (.seq [.str ['4'], .str ['2']]) = some [4, 2] := by
   have h : SM.rawServings (.seq [.str ['4'], .str ['2']]) = some [4, 2] := by decide +kernel
   have hd : SM.dedupLen [4, 2] = ([4, 2] : List Nat).length := (SM.dedupLen_eq_iff _).mpr (by decide)
   simp [SM.valueAsServings, h, hd]
+
+-- ===== w6numeric =====
+/-! ## units with an additive offset (°C, °F), and every built converter (wave `w6numeric`)
+
+  `scale` multiplies the stated NUMBER.  With `amount v u = (v + u.difference) · u.ratio` the absolute amount is
+  multiplied only when the unit's zero point is the absolute zero; for an offset unit what is multiplied is the amount
+  counted from the unit's OWN zero point (`amount 0 u`): `@oven{180%°C}` ×2 is `360 °C` = 633.15 K, not 2 · 453.15 K. -/
+
+/-- **What scaling does to a physical amount, for every unit.**  Multiplying the number by `f`: (1) the absolute
+    amount becomes `f · amount + (1 − f) · (amount of the unit's zero point)`; (2) the amount counted from the unit's
+    own zero point is multiplied by `f`; (3) the absolute amount itself is multiplied by `f` exactly when `f = 1` or
+    the unit's zero point is the absolute zero (`difference · ratio = 0`: every shipped unit but °C and °F). -/
+theorem C08_scale_offset_amount (x f : Rat) (u : Unit Rat) :
+    amount (x * f) u = f * amount x u + (1 - f) * amount 0 u ∧
+    amount (x * f) u - amount 0 u = f * (amount x u - amount 0 u) ∧
+    (amount (x * f) u = f * amount x u ↔ (f = 1 ∨ amount 0 u = 0)) ∧
+    amount 0 u = u.difference * u.ratio :=
+  ⟨so_amount_scale x f u, so_amount_from_zero x f u, so_amount_mul_iff x f u, so_amount_zero u⟩
+
+/-- **The honest clause 1 for every known unit, offset or not.**  A `Linear` numeric or range ingredient quantity in
+    the known unit `u`, scaled by `f`: outcome `Scaled`, and the quantity afterwards is stated in a unit `nu` of the
+    same physical quantity such that, part by part (range ends, fraction error included), its absolute amount minus the
+    absolute amount of `u`'s zero point is `f ·` (the written amount minus the amount of `u`'s zero point).  For a unit
+    without offset `amount 0 u = 0` and this is `C08_scale_linear` + `C08_scale_linear_amount`. -/
+theorem C08_scale_linear_offset {c : Converter Rat} (hc : c.Sound) (f : Rat)
+    (i : Ingredient (ScalableValue Rat)) (v : Value Rat) (unit : Option Str) (u : Unit Rat)
+    (hq : i.quantity = some ⟨.linear v, unit⟩) (hv : v.isText = false)
+    (hu : unitInfo c ⟨v, unit⟩ = some u) :
+    (scaleIngredient c f i).2 = .scaled ∧
+    ∃ q' nu, (scaleIngredient c f i).1.quantity = some q' ∧ unitInfo c q' = some nu ∧ nu.pq = u.pq ∧
+      q'.value.parts.map (fun y => amount y nu - amount 0 u) =
+        v.parts.map (fun x => f * (amount x u - amount 0 u)) := by
+  obtain ⟨ho, q', hq', hcase⟩ := C08_scale_linear hc f i v unit hq hv
+  refine ⟨ho, ?_⟩
+  rcases hcase with ⟨hn, _⟩ | ⟨u', nu, hu', hnu, hpq, hamt⟩
+  · rw [hu] at hn; cases hn
+  · rw [hu] at hu'; cases hu'
+    refine ⟨q', nu, hq', hnu, hpq, ?_⟩
+    have h1 : q'.value.parts.map (fun y => amount y nu - amount 0 u) =
+        (q'.value.parts.map (fun y => amount y nu)).map (fun a => a - amount 0 u) := by
+      rw [List.map_map]; rfl
+    rw [h1, hamt, List.map_map]
+    apply List.map_congr_left
+    intro x _
+    exact so_amount_from_zero x f u
+
+/-- `@oven{180%°C}` ×2 with the shipped converter is `360 °C` (the temperature lists hold one unit each, fractions
+    are off for temperatures) … -/
+example : (scaleIngredient (Converter.bundled Rat) 2
+    { name := ['o'], alias := none, quantity := some ⟨.linear (.number (.regular 180)), some ['°', 'C']⟩,
+      note := none, reference := none, relation := ⟨.definition [] true, none⟩, modifiers := .empty }).1.quantity
+    = some ⟨.number (.regular 360), some ['°', 'C']⟩ := by decide +kernel
+/-- … i.e. 633.15 K, which is not twice 453.15 K: counted from 0 °C = 273.15 K it is twice 180 K -/
+example : ((Converter.bundled Rat).findUnit ['°', 'C']).map
+    (fun u => (amount 360 u, amount 180 u, amount 0 u)) = some (63315/100, 45315/100, 27315/100) := by decide +kernel
+example : (63315/100 : Rat) - 27315/100 = 2 * (45315/100 - 27315/100) ∧ (63315/100 : Rat) ≠ 2 * (45315/100) := by
+  decide +kernel
+
+/-! ### `Converter.Sound` holds for every converter the builder makes (`C16_built_converter_sound`)
+
+  `Bld.BuiltAs files c` (Lemmas/BuilderBridge.lean): the builder model (C16) builds the layers `files`, no ratio in
+  them is zero, and `c` is the result read as the converter of this model.  Every theorem above that assumes `c.Sound`
+  therefore holds for every built converter — not only the shipped one (`C09_bundled_sound`). -/
+
+/-- every built converter is sound (= `C16_built_converter_sound`, `C09_built_sound`) -/
+theorem C08_built_sound {files : List (Bld.UnitsFile Rat)} {c : Converter Rat} (hbuilt : Bld.BuiltAs files c) :
+    c.Sound := hbuilt.sound
+
+/-- `C08_scale_linear` for every built converter -/
+theorem C08_scale_linear_built {files : List (Bld.UnitsFile Rat)} {c : Converter Rat} (hbuilt : Bld.BuiltAs files c)
+    (f : Rat) (i : Ingredient (ScalableValue Rat)) (v : Value Rat) (unit : Option Str)
+    (hq : i.quantity = some ⟨.linear v, unit⟩) (hv : v.isText = false) :
+    (scaleIngredient c f i).2 = .scaled ∧
+    ∃ q', (scaleIngredient c f i).1.quantity = some q' ∧
+      ((unitInfo c ⟨v, unit⟩ = none ∧ q'.unit = unit ∧ q'.value.parts = v.parts.map (fun x => x * f)) ∨
+       ∃ u nu, unitInfo c ⟨v, unit⟩ = some u ∧ unitInfo c q' = some nu ∧ nu.pq = u.pq ∧
+         q'.value.parts.map (fun y => amount y nu) = v.parts.map (fun x => amount (x * f) u)) :=
+  C08_scale_linear hbuilt.sound f i v unit hq hv
+
+/-- `C08_scale_linear_offset` for every built converter -/
+theorem C08_scale_linear_offset_built {files : List (Bld.UnitsFile Rat)} {c : Converter Rat}
+    (hbuilt : Bld.BuiltAs files c) (f : Rat)
+    (i : Ingredient (ScalableValue Rat)) (v : Value Rat) (unit : Option Str) (u : Unit Rat)
+    (hq : i.quantity = some ⟨.linear v, unit⟩) (hv : v.isText = false)
+    (hu : unitInfo c ⟨v, unit⟩ = some u) :
+    (scaleIngredient c f i).2 = .scaled ∧
+    ∃ q' nu, (scaleIngredient c f i).1.quantity = some q' ∧ unitInfo c q' = some nu ∧ nu.pq = u.pq ∧
+      q'.value.parts.map (fun y => amount y nu - amount 0 u) =
+        v.parts.map (fun x => f * (amount x u - amount 0 u)) :=
+  C08_scale_linear_offset hbuilt.sound f i v unit u hq hv hu
+
+/-- `C08_scale_fixed` for every built converter -/
+theorem C08_scale_fixed_built {files : List (Bld.UnitsFile Rat)} {c : Converter Rat} (hbuilt : Bld.BuiltAs files c)
+    (f : Rat) (i : Ingredient (ScalableValue Rat)) :
+    ((scaleIngredient c f i).1.name = i.name ∧ (scaleIngredient c f i).1.alias = i.alias ∧
+     (scaleIngredient c f i).1.note = i.note ∧ (scaleIngredient c f i).1.reference = i.reference ∧
+     (scaleIngredient c f i).1.relation = i.relation ∧ (scaleIngredient c f i).1.modifiers = i.modifiers) ∧
+    (i.quantity = none → (scaleIngredient c f i).1.quantity = none ∧ (scaleIngredient c f i).2 = .noQuantity) ∧
+    (∀ v unit, i.quantity = some ⟨.fixed v, unit⟩ →
+      (scaleIngredient c f i).2 = .fixed ∧
+      ∃ q', (scaleIngredient c f i).1.quantity = some q' ∧
+        (v.isText = true → q' = ⟨v, unit⟩) ∧
+        ((unitInfo c ⟨v, unit⟩ = none ∧ q' = ⟨v, unit⟩) ∨
+         ∃ u nu, unitInfo c ⟨v, unit⟩ = some u ∧ unitInfo c q' = some nu ∧ nu.pq = u.pq ∧
+           q'.value.parts.map (fun y => amount y nu) = v.parts.map (fun x => amount x u))) :=
+  C08_scale_fixed hbuilt.sound f i
+
+/-- `C08_scale_timer` for every built converter -/
+theorem C08_scale_timer_built {files : List (Bld.UnitsFile Rat)} {c : Converter Rat} (hbuilt : Bld.BuiltAs files c)
+    (f : Rat) (t : Timer (ScalableValue Rat)) :
+    (scaleTimer c f t).1.name = t.name ∧
+    (t.quantity = none → (scaleTimer c f t).1.quantity = none ∧ (scaleTimer c f t).2 = .noQuantity) ∧
+    (∀ v unit, t.quantity = some ⟨.fixed v, unit⟩ →
+      (scaleTimer c f t).2 = .fixed ∧
+      ∃ q', (scaleTimer c f t).1.quantity = some q' ∧
+        ((unitInfo c ⟨v, unit⟩ = none ∧ q' = ⟨v, unit⟩) ∨
+         ∃ u nu, unitInfo c ⟨v, unit⟩ = some u ∧ unitInfo c q' = some nu ∧ nu.pq = u.pq ∧
+           q'.value.parts.map (fun y => amount y nu) = v.parts.map (fun x => amount x u))) :=
+  C08_scale_timer hbuilt.sound f t
+
+/-- `C08_recipe_scale_linear` (the headline clause at recipe level) for every built converter -/
+theorem C08_recipe_scale_linear_built {files : List (Bld.UnitsFile Rat)} {c : Converter Rat}
+    (hbuilt : Bld.BuiltAs files c) (r : ScalableRecipe Rat) (f : Rat)
+    (k : Nat) (i : Ingredient (ScalableValue Rat)) (v : Value Rat) (unit : Option Str)
+    (hk : r.ingredients[k]? = some i) (hq : i.quantity = some ⟨.linear v, unit⟩)
+    (hv : v.isText = false) :
+    (recipeScale c r f).2.ingredients[k]? = some .scaled ∧
+    ∃ i' q', (recipeScale c r f).1.ingredients[k]? = some i' ∧ i'.quantity = some q' ∧
+      (i'.name = i.name ∧ i'.alias = i.alias ∧ i'.note = i.note ∧ i'.reference = i.reference ∧
+        i'.relation = i.relation ∧ i'.modifiers = i.modifiers) ∧
+      ((unitInfo c ⟨v, unit⟩ = none ∧ q'.unit = unit ∧ q'.value.parts = v.parts.map (fun x => x * f)) ∨
+       ∃ u nu, unitInfo c ⟨v, unit⟩ = some u ∧ unitInfo c q' = some nu ∧ nu.pq = u.pq ∧
+         q'.value.parts.map (fun y => amount y nu) = v.parts.map (fun x => amount (x * f) u) ∧
+         (u.difference = 0 →
+           q'.value.parts.map (fun y => amount y nu) = v.parts.map (fun x => f * amount x u))) :=
+  C08_recipe_scale_linear hbuilt.sound r f k i v unit hk hq hv
+
+/-- `C08_scaled_unit_rule` for every built converter; the builder rejects empty best lists, so that premise is gone -/
+theorem C08_scaled_unit_rule_built {files : List (Bld.UnitsFile Rat)} {c : Converter Rat}
+    (hbuilt : Bld.BuiltAs files c) (f : Rat)
+    (i : Ingredient (ScalableValue Rat)) (v : Value Rat) (unit : Option Str) (u : Unit Rat)
+    (hq : i.quantity = some ⟨.linear v, unit⟩) (hv : v.isText = false)
+    (hu : unitInfo c ⟨v, unit⟩ = some u)
+    (hoff : FractionsOffFor c u (u.system.getD c.defaultSystem)) :
+    ∃ value v' b, value.parts = v.parts.map (fun x => x * f) ∧
+      c.convert value (.unit u) .sameSystem = .ok (v', b) ∧
+      (scaleIngredient c f i).1.quantity = some ⟨v'.toValue, b.symbol?⟩ :=
+  C08_scaled_unit_rule hbuilt.sound f i v unit u hq hv hu hoff (hbuilt.best_nonempty _ _)
+
+/-- `C08_scale_one_of_fitted` for every built converter (`SystemsCoherent` stays a premise: the builder does not
+    check that a system's list holds units of that system) -/
+theorem C08_scale_one_of_fitted_built {files : List (Bld.UnitsFile Rat)} {c : Converter Rat}
+    (hbuilt : Bld.BuiltAs files c) (hcoh : c.SystemsCoherent)
+    (q0 q : SQuantity Rat) (u0 : Unit Rat) (hu0 : unitInfo c q0 = some u0)
+    (hoff : FractionsOffFor c u0 (u0.system.getD c.defaultSystem)) (hfit : fit c q0 = (q, .ok ()))
+    (h0 : ∀ x ∈ q0.value.parts.head?, 0 ≤ x) (h0' : ∀ x ∈ q.value.parts.head?, 0 ≤ x)
+    (i : Ingredient (ScalableValue Rat)) (hq : i.quantity = some ⟨.linear q.value, q.unit⟩) :
+    (scaleIngredient c 1 i).1.quantity = some q ∧ (scaleIngredient c 1 i).2 = .scaled :=
+  C08_scale_one_of_fitted hbuilt.sound hcoh q0 q u0 hu0 hoff hfit h0 h0' i hq
+
+/-- non-vacuity: the shipped units file is a built converter in this sense -/
+example : ∃ c, Bld.BuiltAs [Gen.shippedFile] c := by
+  have h : (Bld.build (α := Rat) [Gen.shippedFile]).toOption.isSome = true := by decide +kernel
+  cases hb : Bld.build (α := Rat) [Gen.shippedFile] with
+  | error e => rw [hb] at h; cases h
+  | ok conv => exact ⟨_, conv, hb, by decide +kernel, rfl⟩
+/-- the premises of `C08_scale_linear_offset` hold of `@oven{180%°C}` with the shipped (sound) converter -/
+example : (unitInfo (Converter.bundled Rat) ⟨.number (.regular 180), some ['°', 'C']⟩).map (·.difference)
+    = some (5463/20) := by decide +kernel
+
+/-- the shipped converter is sound, its lists are not mixed across systems, its ratios are positive (decided on the
+    generated table; the same facts as `C09_bundled_sound`, `C09_bundled_systems_coherent`, `C09_bundled_best_lists_ok`,
+    restated here because Props/C08.lean does not import Props/C09.lean) -/
+theorem C08_bundled_sound : (Converter.bundled Rat).Sound := soundB_sound _ (by decide +kernel)
+/-- the best lists of the shipped converter are not mixed across systems (decided) -/
+theorem C08_bundled_systems_coherent : (Converter.bundled Rat).SystemsCoherent := fc_systemsCoherentB (by decide +kernel)
+/-- every ratio of the shipped converter is positive (decided) -/
+theorem C08_bundled_pos_ratios : (Converter.bundled Rat).PosRatios := bu_posRatiosB (by decide +kernel)
+
+/-- **Scaling by 1 returns a fitted quantity unchanged — shipped converter, no side condition on signs, units or
+    fractions.**  If the quantity of a linear ingredient is the result `q` of a successful `fit` with the shipped
+    converter (any value kind, any sign, any unit, fractions enabled or not — e.g. it comes from a scaled recipe), then
+    `q` is a fixed point of `fit` (`C09_bundled_fit_idempotent`), and scaling by the factor 1 leaves exactly `q`
+    (numbers and unit text) whenever `linear_scale(q.value, 1)` is `q.value` again — i.e. `q` states plain numbers
+    (`linear_scale` rebuilds every number as `Regular(value · 1)`; a `Fraction` comes back as its value). -/
+theorem C08_bundled_scale_one_of_fitted (q0 q : SQuantity Rat)
+    (hfit : fit (Converter.bundled Rat) q0 = (q, .ok ()))
+    (i : Ingredient (ScalableValue Rat)) (hq : i.quantity = some ⟨.linear q.value, q.unit⟩) :
+    fit (Converter.bundled Rat) q = (q, .ok ()) ∧
+    (((ScalableValue.linear q.value).scale (1 : Rat)).1 = q.value →
+      (scaleIngredient (Converter.bundled Rat) 1 i).1.quantity = some q) := by
+  have hidem := fid_fit_idempotent_all C08_bundled_sound C08_bundled_systems_coherent C08_bundled_pos_ratios
+    (by decide +kernel) q0 q hfit
+  refine ⟨hidem, ?_⟩
+  intro hscale
+  simp only [scaleIngredient, hq, scaled_quantity_eq, hscale]
+  rw [hidem]
+
+/-- non-vacuity: `1500 ml` is fitted to `1.5 l`, which states a plain number, so scaling it by 1 leaves `1.5 l` -/
+example : fit (Converter.bundled Rat) ⟨.number (.regular 1500), some ['m','l']⟩ =
+    (⟨.number (.regular (3/2)), some ['l']⟩, .ok ()) ∧
+    ((ScalableValue.linear (Value.number (.regular (3/2 : Rat)))).scale (1 : Rat)).1 = .number (.regular (3/2)) := by
+  constructor
+  · have h1 : (fit (Converter.bundled Rat) ⟨.number (.regular 1500), some ['m','l']⟩).1 =
+        ⟨.number (.regular (3/2)), some ['l']⟩ := by decide +kernel
+    have h2 : (fit (Converter.bundled Rat) ⟨.number (.regular 1500), some ['m','l']⟩).2.toOption = some () := by
+      decide +kernel
+    cases hf : fit (Converter.bundled Rat) ⟨.number (.regular 1500), some ['m','l']⟩ with
+    | mk a e =>
+      rw [hf] at h1 h2
+      cases e with
+      | error x => cases h2
+      | ok u => simp only at h1; rw [h1]
+  · decide +kernel
+-- ===== end w6numeric =====
 
 end Cook
